@@ -12,9 +12,9 @@ def run_c07(tier):
     rules_seen = {}
     maxpairs = 6 if tier == "quick" else 12
     for variant in (["expl"] if tier == "quick" else ["expl", "expl+checks"]):
-        for u, (uni, tpath, st, states) in tables.items():
+        for u, (uni, tpath, st, states, upath) in tables.items():
             trace = os.path.join(OUT, "tlc", "%s_%s_%s.ndjson" % (prop, u, variant.replace("+", "_")))
-            summ = jsonl(run_bin(variant, "ex_record", [os.path.join(UNIV, u + ".json"), tpath, trace, maxpairs]))[0]
+            summ = jsonl(run_bin(variant, "ex_record", [upath, tpath, trace, maxpairs]))[0]
             summ["variant"] = variant
             summs.append(summ)
             cfg = open(os.path.join(SPEC, "TraceProofs.cfg")).read()
